@@ -17,6 +17,8 @@ Section ObjInd.
   Hypothesis HArr : forall dims xs et adj, Forall P xs -> P et -> P (Arr dims xs et adj).
   Hypothesis HHash : forall kvs, Forall (fun kv => P (fst kv) /\ P (snd kv)) kvs -> P (Hash kvs).
   Hypothesis HLam : forall ll doc body, Forall P ll -> Forall P body -> P (Lam ll doc body).
+  Hypothesis HInst : forall f slots, Forall (fun kv => P (snd kv)) slots -> P (Inst f slots).
+  Hypothesis HFlv : forall n ivars i g s d, Forall (fun kv => P (snd kv)) ivars -> P (Flv n ivars i g s d).
   Hypothesis HOpaque : forall w, P (Opaque w).
   Fixpoint obj_ind2 (v : obj) : P v :=
     let fix all (l : list obj) : Forall P l :=
@@ -33,6 +35,16 @@ Section ObjInd.
                                 | (k, w) :: r => Forall_cons (k, w) (conj (obj_ind2 k) (obj_ind2 w)) (allp r)
                                 end) kvs)
     | Lam ll doc body => HLam ll doc body (all ll) (all body)
+    | Inst f slots => HInst f slots ((fix alls (l : list (string * obj)) : Forall (fun kv => P (snd kv)) l :=
+                                        match l with
+                                        | [] => Forall_nil _
+                                        | (k, w) :: r => Forall_cons (k, w) (obj_ind2 w) (alls r)
+                                        end) slots)
+    | Flv n ivars i g s d => HFlv n ivars i g s d ((fix alls (l : list (string * obj)) : Forall (fun kv => P (snd kv)) l :=
+                                        match l with
+                                        | [] => Forall_nil _
+                                        | (k, w) :: r => Forall_cons (k, w) (obj_ind2 w) (alls r)
+                                        end) ivars)
     | Opaque w => HOpaque w
     end.
 End ObjInd.
@@ -427,6 +439,8 @@ Proof.
   - (* Lam *)
     cbn [loadable_in] in Hl. apply andb_true_iff in Hl. destruct Hl as [Hl _].
     eexists. split; [reflexivity|]. intros e He. apply eval_lambda_form. exact Hl.
+  - discriminate.
+  - discriminate.
   - discriminate.
 Qed.
 
